@@ -103,8 +103,7 @@ def r2(ctx):
     order_rule(ctx, P, "C02.R2", VAP, BS_PUT, True)
 
 
-def r3(ctx):
-    rule = "C02.R3"
+def r3(ctx, P=P, rule="C02.R3"):
     fa = ctx.real_body(CLEAR, [OPLOG_CLEAR])
     if not need(ctx, P, rule, CLEAR, fa):
         return
@@ -537,7 +536,26 @@ def r8c(ctx, prop=P, rule="C02.R8"):
                                   fld, loc(fo, b.i, si), [site_desc(fo, s) for s in late]), [loc(fo, b.i, si)], key="%s|%s|Oplog::open|%s read before trimming" % (prop, rule, fld))
 
 
-RULES = [r1, r2, r3, r4, r5, r6, r7, r8, r8b, r8c, r9]
+def r10(ctx):
+    """replaying the log is idempotent against whatever a crashed flush already wrote: every replayed
+    bitfield update is followed by update_contiguous_length unconditionally — in particular not only
+    "if the update changed a bit", which is false exactly when the crash fell between the bitfield
+    page write and the header write (the hint clauses of C08.R3, for Hypercore::new)"""
+    from . import c08
+    before = len(ctx.insts)
+    c08.r3(ctx)
+    keep = []
+    for i in ctx.insts[before:]:
+        if "|core::Hypercore::new|" in i.key or i.anchor.startswith("new:"):
+            i.prop, i.rule = P, "C02.R10"
+            i.key = i.key.replace("C08|C08.R3", "C02|C02.R10")
+            keep.append(i)
+    ctx.insts[before:] = keep
+    if not keep:
+        ctx.missing(P, "C02.R10", "Hypercore::new: Bitfield::update in the replay loop", "no instance of the hint clause for Hypercore::new")
+
+
+RULES = [r1, r2, r3, r4, r5, r6, r7, r8, r8b, r8c, r9, r10]
 
 EXPLANATION = ("C02 (crash recovers to before-or-after): decides the write-ahead ordering premises on the CFG of every mutating entry point — "
                "data write before oplog entry, entry write ?-checked before any in-memory commit, commits before the periodic flush (append R1, proof apply R2), "
